@@ -25,6 +25,7 @@ import struct
 import sys
 import warnings
 from collections.abc import Mapping, Sequence, Set
+from pathlib import Path
 
 from vlib import tlc
 
@@ -514,17 +515,29 @@ def roundtrip_check(ctx, wd, *, wire: str, convert, level: int, with_nd: bool, n
     env = dict(tlc_env(wd, level=level, with_nd=with_nd), **(extra_env or {}))
     rng = random.Random(ctx.seed)
     extra, seen = [], set()
+    maxd = 2 if level == 0 else 3
     while len(extra) < nextra:
-        t = random_type(rng, 2, with_nd)
+        t = random_type(rng, maxd if len(extra) % 2 else 2, with_nd)      # thorough: every second draw from the depth-3 grammar
         s = type_str(t)
-        if s not in seen and depth(t) <= 2:
+        if s not in seen and depth(t) <= maxd:
             seen.add(s)
             extra.append(t)
     with open(env["TV_EXTRA"], "w") as f:
         for t in extra:
             f.write(json.dumps({"t": t}) + "\n")
-    tlc.evaluate(wd, "TypedValuesGen", env=env, timeout=3000)
-    pairs = [json.loads(l) for l in open(env["TV_INPUTS"]) if l.strip()]
+    # TypedValuesGenChunks writes one file per type (TLC never builds the set of all pairs: 60x faster than Gen for the
+    # thorough universe); <TV_INPUTS>.n holds the number of files
+    for old in wd.glob(Path(env["TV_INPUTS"]).name + ".*"):
+        old.unlink()
+    tlc.evaluate(wd, "TypedValuesGenChunks", env=env, timeout=3000)
+    nfiles = json.loads(open(f"{env['TV_INPUTS']}.n").readline())["n"]
+    pairs = []
+    for i in range(1, nfiles + 1):
+        with open(f"{env['TV_INPUTS']}.{i}") as f:
+            chunk = [json.loads(l) for l in f if l.strip()]
+        if not chunk or any(p["t"] != chunk[0]["t"] for p in chunk):
+            raise RuntimeError(f"chunk {i} of the enumeration is empty or mixes types")
+        pairs.extend(chunk)
     if not top_level_missing:
         pairs = [p for p in pairs if p["v"]["c"] != "na"]
     if stride > 1:      # a seeded sub-sample of TLC's enumeration (quick tier of the more expensive verdicts)
